@@ -84,6 +84,42 @@ static SCHED: Mutex<Option<Arc<Sched>>> = Mutex::new(None);
 /// (id, body, bound, executions so far) of the exploration in progress, for the monitors' immediate report
 static CURRENT: Mutex<Option<(J, String, usize, usize)>> = Mutex::new(None);
 
+/// Pre-formatted report line for "the process died on a signal while executing this schedule prefix": the signal handler
+/// only write()s it (async-signal-safe) and leaves, so that a hard crash still yields a replayable schedule.
+static CRASH_LINE: std::sync::atomic::AtomicPtr<Vec<u8>> = std::sync::atomic::AtomicPtr::new(std::ptr::null_mut());
+
+extern "C" fn crash_handler(sig: libc::c_int) {
+    let p = CRASH_LINE.load(std::sync::atomic::Ordering::SeqCst);
+    unsafe {
+        if !p.is_null() {
+            let v: &Vec<u8> = &*p;
+            libc::write(1, v.as_ptr() as *const libc::c_void, v.len());
+            libc::_exit(0);
+        }
+        libc::signal(sig, libc::SIG_DFL);
+        libc::raise(sig);
+    }
+}
+
+fn set_crash_line(line: Option<String>) {
+    let new = match line {
+        Some(l) => Box::into_raw(Box::new(format!("{l}\n").into_bytes())),
+        None => std::ptr::null_mut(),
+    };
+    let old = CRASH_LINE.swap(new, std::sync::atomic::Ordering::SeqCst);
+    if !old.is_null() {
+        drop(unsafe { Box::from_raw(old) });
+    }
+}
+
+fn install_crash_handler() {
+    unsafe {
+        for sig in [libc::SIGSEGV, libc::SIGBUS, libc::SIGABRT, libc::SIGILL] {
+            libc::signal(sig, crash_handler as extern "C" fn(libc::c_int) as usize);
+        }
+    }
+}
+
 /// A memory-safety monitor fired: going on would be undefined behaviour (and typically ends in an allocator abort that
 /// hides the schedule), so report the violation with the schedule so far and leave the process.
 fn monitor_abort(st: &St, fault: &str) -> ! {
@@ -476,10 +512,13 @@ fn bodies(name: &str) -> Vec<Body> {
         }
         // (e) a heap is built on X and handed to Y; X then builds further heaps out of the cached remainder of the same chunk
         //     (ref-count increments on X) while Y reads and drops the first heap (decrement on Y)
-        "handoff" | "handoff3" => {
+        "handoff" | "handoff3" | "handoff_rebuild" => {
             let slot: Arc<Mutex<Option<FrozenModule>>> = Arc::new(Mutex::new(None));
             let (s1, s2, s3) = (slot.dupe(), slot.dupe(), slot.dupe());
             let three = name == "handoff3";
+            // handoff_rebuild: Y, after dropping H0 (whose chunk part lands in Y's cache), builds a small heap of its own out of
+            // that part - so BOTH threads carve (clone) the same chunk
+            let rebuild = name == "handoff_rebuild";
             let mut v: Vec<Body> = vec![
                 Box::new(move || {
                     let h0 = eval_frozen("a.star", SRC_A, &[]);
@@ -496,6 +535,14 @@ fn bodies(name: &str) -> Vec<Body> {
                     let h0 = s3.lock().unwrap().take().unwrap();
                     let o = observe_module(&h0);
                     drop(h0);
+                    if rebuild {
+                        let h3 = eval_frozen("d.star", "D = ['d' * 3]\n", &[]);
+                        let h4 = eval_frozen("e.star", "E = [1]\n", &[]);
+                        let o2 = format!("{o}#{}#{}", observe_module(&h3), observe_module(&h4));
+                        drop(h3);
+                        drop(h4);
+                        return o2;
+                    }
                     o
                 }),
             ];
@@ -573,8 +620,17 @@ impl Explorer {
         }
         if let Some(c) = CURRENT.lock().unwrap().as_mut() {
             c.3 = self.executions;
+            set_crash_line(Some(
+                json!({"id": c.0, "body": c.1, "bound": c.2, "schedules": self.executions + 1, "max_points": self.max_points,
+                       "distinct_outcomes": self.outcomes.len(), "addresses_touched_by_several_threads": self.shared_max,
+                       "capped": false, "crashed_in_schedule": true,
+                       "violation": {"fault": "the process died on a signal (SIGSEGV/SIGABRT/SIGBUS) while executing this schedule prefix (default continuation after it)",
+                                     "schedule": prefix, "events": []}})
+                .to_string(),
+            ));
         }
         let x = run_schedule(bodies(&self.body), &prefix);
+        set_crash_line(None);
         self.executions += 1;
         self.max_points = self.max_points.max(x.decisions.len());
         self.shared_max = self.shared_max.max(x.shared_addrs);
@@ -678,6 +734,7 @@ fn l2(spec: &J) -> J {
         split: spec.get("split").and_then(|s| s.as_array()).map(|a| (a[0].as_u64().unwrap() as usize, a[1].as_u64().unwrap() as usize)),
     };
     *CURRENT.lock().unwrap() = Some((spec["id"].clone(), body.clone(), bound, 0));
+    install_crash_handler();
     ex.explore(vec![], vec![], &r1.results);
     *CURRENT.lock().unwrap() = None;
     json!({"id": spec["id"], "body": body, "bound": bound, "schedules": ex.executions, "max_points": ex.max_points,
